@@ -1,6 +1,7 @@
 package props
 
 import (
+	"strings"
 	"fmt"
 	"time"
 
@@ -178,6 +179,12 @@ func identitySpace(name, desc string, paths []*gen.Path, docs func() []*doc.Tree
 				vsx, bsx := gen.Render(v.e), gen.Render(v.base)
 				ve, err1, pan1 := eng.Compile(vsx, false, nil)
 				be, err2, pan2 := eng.Compile(bsx, false, nil)
+				if last.Seq != nil && pan1 == nil && err1 != nil && err2 == nil && pan2 == nil && strings.Contains(vsx, ")[true()]") {
+					// a predicate directly on a step LIST p/(s1, s2)[true()] is not XPath and the
+					// package's extension need not accept it; only if it is accepted must it be an identity
+					w.Count("predicate_on_step_list_rejected", 1)
+					continue
+				}
 				if err1 != nil || pan1 != nil || err2 != nil || pan2 != nil {
 					w.Eval()
 					ec := &evalCase{Expr: vsx, T: docs()[0], Op: v.op, Mode: "set"}
